@@ -10,7 +10,9 @@ CONSTANTS
   MaxUpdate = 1
   ClearOnSet = TRUE
   ClearOnDelete = TRUE
+  BareKeyShortcut = FALSE
   Depth = 10
 INVARIANT NeverStale
 INVARIANT MemoCoherent
+INVARIANT FirstOfBest
 INVARIANT EmitFull
